@@ -55,6 +55,7 @@ type Obligation struct {
 	Vacuous bool
 	replayed bool
 	Inputs   map[string]string
+	SliceTime float64
 }
 
 // ---------- heap components and states ----------
@@ -107,7 +108,13 @@ func (s *State) clone() *State {
 	return n
 }
 
+type originInfo struct {
+	base  Term
+	bound Term
+}
+
 type Enc struct {
+	origin   map[string]originInfo
 	P        *Program
 	DB       *SpecDB
 	R        *Resolver
@@ -138,7 +145,7 @@ type Enc struct {
 }
 
 func newEnc(P *Program, db *SpecDB, r *Resolver) *Enc {
-	e := &Enc{P: P, DB: db, R: r, sorts: map[string]bool{}, declared: map[string]bool{}, comps: map[string]*Comp{},
+	e := &Enc{origin: map[string]originInfo{}, P: P, DB: db, R: r, sorts: map[string]bool{}, declared: map[string]bool{}, comps: map[string]*Comp{},
 		abstracted: map[string]bool{}, trustedUsed: map[string]bool{}, axiomsUsed: map[string]bool{}, budget: 60000,
 		strLits: map[string]Term{}, typeTags: map[string]int{}, subFuns: map[string]bool{}, globals: map[*ssa.Global]Term{}, consts: map[string]Term{}}
 	e.sortDecl = append(e.sortDecl, "(declare-sort Str 0)")
@@ -812,7 +819,14 @@ func (e *Enc) epochLookup(ep *Epoch, c *Comp) Term {
 			if ep.freshOnly != nil && ep.freshOnly(c) && !c.Scalar && isArr(c.Sort) {
 				if is, _ := arrParts(c.Sort); is == SInt {
 					old := e.lookup(ep.parents[0].st, c)
-					e.fact(Term{fmt.Sprintf("(forall ((r Int)) (! (=> (< (rootof r) %s) (= (select %s r) (select %s r))) :pattern ((select %s r))))", ep.older.S, t.S, old.S, t.S), SBool})
+					// link to the origin of a run of fresh-only havocs directly (no chain to walk):
+					// objects older than the run's start are exactly as in the version the run started from
+					base, bound := old, ep.older
+					if og, ok := e.origin[old.S]; ok {
+						base, bound = og.base, og.bound
+					}
+					e.fact(Term{fmt.Sprintf("(forall ((r Int)) (! (=> (< (rootof r) %s) (= (select %s r) (select %s r))) :pattern ((select %s r))))", bound.S, t.S, base.S, t.S), SBool})
+					e.origin[t.S] = originInfo{base, bound}
 				}
 			}
 		}
